@@ -291,6 +291,10 @@ def run(prog, rep):
         determinism(rep, cd, u)
         format_guards(rep, cd, u)
     rep.floor("codec-symmetry/positions", nfields, 110)
+    # comments / labels reach the file unaltered only if the string writer refuses what does not fit instead of cutting it
+    from .c13 import string_write_rules
+    rep.attempt(string_write_rules, prog, rep)
+
     # the field codecs the interpreter treats as atoms are symmetric themselves (primitive summary)
     from .. import primitives as PR
     rep.attempt(PR.tdftype_primitives, prog, rep)
